@@ -913,7 +913,7 @@ func TestVerifC01(t *testing.T) {
 		}
 	}
 	// 2. random registrations over random configurations
-	n := vlib.Budget(2500, 60000)
+	n := vlib.Budget(6000, 120000)
 	for i := 0; i < n; i++ {
 		cfg := c01RandCfg(r)
 		k := 1 + r.Intn(4)
